@@ -7,6 +7,7 @@ V = os.path.dirname(os.path.dirname(os.path.abspath(__file__)))
 SD = os.path.join(V, "seeded")
 names = sys.argv[1:] or sorted(os.listdir(SD))
 assert subprocess.run(["git", "-C", "/repo", "status", "--porcelain"], capture_output=True, text=True).stdout.strip() == "", "/repo not clean"
+touched = set()
 for n in names:
     d = os.path.join(SD, n)
     mp = os.path.join(d, "meta.json")
@@ -43,3 +44,9 @@ for n in names:
     meta["checked_against"] = subprocess.run(["git", "-C", "/repo", "rev-parse", "--short", "HEAD"], capture_output=True, text=True).stdout.strip()
     json.dump(meta, open(mp, "w"), indent=1)
     print(n, "->", meta["verdict"][:160])
+    touched.update([pid] + meta.get("also_check", []))
+
+
+# the evidence files were just overwritten by runs on a changed tree: rewrite them from the unchanged tree
+for p in sorted(touched):
+    subprocess.run([os.path.join(V, "check"), p], capture_output=True, text=True, cwd=V)
